@@ -5,7 +5,7 @@ props=[json.loads(l) for l in open('/verif/properties.jsonl')]
 checks=json.load(open('/verif/checks.json'))
 hooks_commits=subprocess.run("git -C /repo log --format=%H --grep='^verif:'",shell=True,capture_output=True,text=True).stdout.split()
 m={"version":1,
- "setup_cmd":"cd /verif && GOFLAGS=-mod=mod GOPROXY=off go build -tags verif -o .build/vcheck ./cmd/vcheck",
+ "setup_cmd":"cd /verif && GOFLAGS=-mod=mod GOPROXY=off go build -tags verif -o .build/ ./cmd/...",
  "hooks":{"guard":"verif (Go build tag)","enable":"go build -tags verif (bin/check does it on every invocation, from /repo's working tree via the replace directive in /verif/go.mod)",
   "baseline_off_cmd":"cd /repo && go test -mod=mod -json -vet=off -count=1 -timeout 25m ./...",
   "source_commits":hooks_commits,"add_only":True},
